@@ -127,4 +127,11 @@ RClose(x, y, a, k) ==
       rhs == Mul(x.d, Add(Mul(y.n.m, a.d), Mul(a.n.m, y.d)))
   IN Cmp(lhs, rhs) <= 0
 DyClose(d, y, a, k) == RClose(DyRat(d), y, a, k)
+RLe(x, y) == RCmp(x, y) <= 0
+RLt(x, y) == RCmp(x, y) < 0
+RAbs(x) == [n |-> SAbs(x.n), d |-> x.d]
+RShr(x, k) == [n |-> x.n, d |-> Mul(x.d, Pow2(k))]          \* x * 2^-k
+\* x <= y + 2^-k * |w|   and   |x - y| <= 2^-k * |w|
+RLeSlack(x, y, w, k) == RLe(x, RAdd(y, RShr(RAbs(w), k)))
+RNear(x, y, w, k) == RLe(RAbs(RSub(x, y)), RShr(RAbs(w), k))
 =============================================================================
